@@ -140,6 +140,7 @@ pub fn replay_inflight(a: &Args) -> i32 {
     let peer_of: Vec<u64> = a.str("peer_of", "1,1,1,2,0").split(',').map(|x| x.parse().unwrap()).collect();
     let mut mismatches = Vec::new();
     let mut steps = 0u64;
+    let prt = tokio::runtime::Builder::new_current_thread().enable_all().start_paused(true).build().unwrap();
     for (bi, beh) in behaviours.iter().enumerate() {
         ID_POS.store(bi * 7 + 31, std::sync::atomic::Ordering::Relaxed);
         let gauge = Gauge::default();
@@ -162,6 +163,11 @@ pub fn replay_inflight(a: &Args) -> i32 {
         let mut futs: HashMap<u64, Fut> = HashMap::new();
         let mut results: HashMap<u64, &'static str> = HashMap::new();
         let mut fail = None;
+        // every third behaviour: the requests carry a deadline of their own (50 ms) and 80 ms pass on the
+        // runtime's clock after every step, whereupon the requests that wait for a slot are polled again:
+        // a request's deadline is the timeout middleware's business - here it still waits for its slot
+        let timed = bi % 3 == 2;
+        let _entered = timed.then(|| prt.enter());
         // a layer that has been in service for a while: thousands of other peers have come and gone
         // (one finished request each) before the peers of this behaviour show up; what the layer
         // remembers of them must not change anything for anybody else
@@ -194,7 +200,11 @@ pub fn replay_inflight(a: &Args) -> i32 {
             match act {
                 "arrive" => {
                     let svc = &mut services[(r as usize) % 3];
-                    let mut f: Fut = Box::pin(svc.call(request(r, peer)));
+                    let mut req = request(r, peer);
+                    if timed {
+                        req.set_timeout(std::time::Duration::from_millis(50));
+                    }
+                    let mut f: Fut = Box::pin(svc.call(req));
                     match poll_once(&mut f) {
                         Poll::Ready(res) => {
                             results.insert(r, classify(&res));
@@ -240,6 +250,20 @@ pub fn replay_inflight(a: &Args) -> i32 {
             }
             // compare with the specification's state after this step
             let post = &step["post"];
+            if timed {
+                prt.block_on(tokio::time::advance(std::time::Duration::from_millis(80)));
+                for (ri, s) in post["st"].as_array().unwrap().iter().enumerate() {
+                    let rid = ri as u64 + 1;
+                    if s == "waiting" {
+                        if let Some(f) = futs.get_mut(&rid) {
+                            if let Poll::Ready(res) = poll_once(f) {
+                                results.insert(rid, classify(&res));
+                                futs.remove(&rid);
+                            }
+                        }
+                    }
+                }
+            }
             let g = gauge.inner.lock().unwrap();
             let mut peers: Vec<u64> = peer_of.iter().copied().filter(|p| *p != 0).collect();
             peers.sort();
@@ -654,6 +678,10 @@ impl Service<Request<Bytes>> for Counting {
         let rid: u64 = req.headers().get("rid").and_then(|v| v.parse().ok()).unwrap_or(0);
         let key: u64 = req.headers().get("peer").and_then(|v| v.parse().ok()).unwrap_or(0);
         self.reached.lock().unwrap().push((key, rid, std::time::Instant::now()));
+        if req.headers().contains_key("hold") {
+            // a request whose caller will hang up before there is an answer
+            return Box::pin(futures::future::pending());
+        }
         Box::pin(async move { Ok(Response::new(Bytes::new())) })
     }
 }
@@ -730,8 +758,23 @@ pub fn replay_rate(a: &Args) -> i32 {
                 3 => req = req.with_extension(anemo::ConnectionOrigin::Outbound),
                 _ => {}
             }
-            let fut = clones[si % 2].call(req);
-            let res = rt.block_on(fut);
+            // "dropped": the request is admitted and handed to the wrapped service, which is still at it
+            // when the caller hangs up (the future is dropped) - the cell it took stays taken
+            let dropped = step["fate"] == "dropped";
+            if dropped {
+                req.headers_mut().insert("hold".into(), "1".into());
+            }
+            let mut fut = Box::pin(clones[si % 2].call(req));
+            let res = if dropped {
+                let polled = rt.block_on(futures::future::poll_fn(|cx| Poll::Ready(fut.as_mut().poll(cx))));
+                drop(fut);
+                match polled {
+                    Poll::Ready(r) => r,                                 // answered (a refusal, or the service was skipped)
+                    Poll::Pending => Ok(Response::new(Bytes::new())),    // still inside the service when dropped
+                }
+            } else {
+                rt.block_on(fut)
+            };
             let reached = counting.reached.lock().unwrap().iter().any(|(_, r, _)| *r == rid);
             match res {
                 Ok(_) => {
